@@ -561,6 +561,15 @@ func simpler(d Dec, op *Op) []Dec {
 			c.Form = f
 			out = append(out, c)
 		}
+	case "absfrag":
+		for _, f := range absFragForms {
+			if f == d.Form {
+				break
+			}
+			c := d
+			c.Form = f
+			out = append(out, c)
+		}
 	case "dup":
 		if d.Form == "end" {
 			c := d
@@ -684,6 +693,16 @@ func describe(op *Op, d Dec) (desc, feature string) {
 		return fmt.Sprintf("duplicate (%s) of %s in %s scope", d.Form, nodeShape(n), scope), "field_deduplication / selection merging"
 	case "wrap":
 		return fmt.Sprintf("run wrapped as %s in %s scope", d.Form, scope), "fragment inlining"
+	case "absfrag":
+		on := "interface"
+		if strings.Contains(d.Form, "U") {
+			on = "union"
+		}
+		kind := "inline fragment"
+		if strings.HasPrefix(d.Form, "frag") {
+			kind = "named fragment"
+		}
+		return fmt.Sprintf("%s on the %s with nested fragments on several implementers under a concrete parent type", kind, on), "inline_selections_from_inline_fragments / fragment inlining"
 	case "typename":
 		return "__typename added", "__typename"
 	case "skip", "include":
